@@ -58,7 +58,13 @@ impl C06 {
                 self.rep.count("apply_block panicked (left to C09)");
             }
             Ok(Ok(h)) => {
-                if !should_accept {
+                let action_must_reject = what == "action-changed:destination" || what == "action-added" || what == "action-dropped";
+                if action_must_reject {
+                    // the statement says outright that changing the proposer action makes the block rejected; a
+                    // changed destination, or adding/dropping the action, always changes what a correct
+                    // implementation commits to (the reward coin exists whenever there is an action)
+                    self.rep.violate(&format!("C06|accepts-changed-proposer-action|apply_block|{}", what), format!("a block whose proposer action was altered ({}) was accepted", what), wit);
+                } else if !should_accept {
                     let cls = if exp.is_none() { "invalid-transactions".to_string() } else { format!("header-mismatch,{}", what.split(':').next().unwrap_or(what)) };
                     self.rep.violate(&format!("C06|accepts-wrong-block|apply_block|{}", cls), format!("a block that is not the correct successor was accepted (mutation: {})", what), wit);
                 } else {
